@@ -163,24 +163,27 @@ def handover(ctx):
     # closure that builds the connection
     cands = [f for f in facts.fns.values() if f.d.get("parent") == "server::HttpServer::handle_new_connection" or f.name == "server::HttpServer::handle_new_connection"]
     found = 0
+    INL = {conn.P + "new", conn.P + "set_payload_max_size", "server::ClientConnection::<T>::new"}
+    hc_names = [x["name"] for x in facts.struct_fields(conn.HC)]
     for f in cands:
-        lv = PathEnum(f, facts).run()
+        # constructors and the setter traversed inline: the value stored in the map is a literal whose fields can be read off
+        lv = PathEnum(f, facts, inline_also=lambda p_, a_: p_ in INL).run()
         ctx.touched(f)
         for lf in lv:
-            news = [i for i, e in enumerate(lf.events) if e[0] == "call" and e[3] == conn.P + "new"]
-            ins = [i for i, e in enumerate(lf.events) if e[0] == "call" and last_seg(e[3]) == "insert" and "HashMap" in e[3]]
+            ins = [e for e in lf.events if e[0] == "call" and last_seg(e[3]) == "insert" and "HashMap" in e[3]]
             if not ins:
                 continue
             found += 1
-            sets = [i for i, e in enumerate(lf.events) if e[0] == "call" and e[3] == conn.P + "set_payload_max_size"]
-            ok = len(news) == 1 and len(sets) >= 1 and news[0] < sets[0] < ins[0]
+            v = look(ins[0][4][2][2])
+            hcs = [x for x in subterms(v) if isinstance(x, tuple) and x and x[0] == "agg" and x[1] == conn.HC]
+            ok = len(hcs) == 1
             if ok:
-                a = look(lf.events[sets[0]][4][2][1])
+                a = look(hcs[0][3][hc_names.index("payload_max_size")])
                 if a[0] == "field" and look(a[1]) == ("arg", 1) and a[3].isdigit() and f.d["kind"] == "closure":
                     caps = closure_captures(ctx, f.name)
                     a = look(caps[int(a[3])]) if caps and int(a[3]) < len(caps) else a
-                ok = any(isinstance(s, tuple) and s and s[0] == "field" and s[3] == "payload_max_size" and s[2] == SRV for s in subterms(a))
-            ctx.ob("R04.4", "handover|%s" % f.name.split("::")[-1], ok, "between HttpConnection::new and the map insertion, set_payload_max_size(server.payload_max_size) is called", f.loc(lf.bb))
+                ok = a[0] == "field" and a[3] == "payload_max_size" and a[2] == SRV
+            ctx.ob("R04.4", "handover|%s" % f.name.split("::")[-1], ok, "the connection stored in the map has payload_max_size == the server's payload_max_size at that moment (constructor argument or setter call, evaluated)", f.loc(lf.bb))
     ctx.ob("R04.4", "handover|floor", found >= 1, "%d path(s) insert a new connection (floor 1)" % found)
     for name, adt in ((conn.P + "set_payload_max_size", conn.HC), ("server::HttpServer::set_payload_max_size", SRV)):
         fn, lv = leaves(ctx, name)
@@ -188,11 +191,18 @@ def handover(ctx):
             a = [e for e in lf.events if e[0] == "assign" and e[3] == "(*_1).payload_max_size"]
             ctx.ob("R04.4", "setter|%s" % name, len(a) == 1 and a[0][4] == ("arg", 2), "%s stores its argument" % name, fn.loc(0))
     callers = sorted({f.name for f in facts.fns.values() if list(f.calls_to(conn.P + "set_payload_max_size"))})
-    ctx.ob("R04.4", "connection-limit-set-only-at-accept", callers and all(r.startswith("server::HttpServer::handle_new_connection") for c in callers for r in writer_roots(facts, c)), "HttpConnection::set_payload_max_size is called only while accepting a connection (callers: %s): an open connection keeps the limit it was given" % callers)
+    ctx.ob("R04.4", "connection-limit-set-only-at-accept", all(r.startswith("server::HttpServer::handle_new_connection") for c in callers for r in writer_roots(facts, c)), "HttpConnection::set_payload_max_size is called only while accepting a connection (callers: %s): an open connection keeps the limit it was given" % callers)
     allowed = {conn.HC: {conn.P + "new", conn.P + "set_payload_max_size"}, SRV: {"server::HttpServer::new", "server::HttpServer::new_from_fd", "server::HttpServer::set_payload_max_size"}}
     for adt, ok_fns in allowed.items():
         for w in field_writers(facts, adt, "payload_max_size"):
-            ctx.ob("R04.4", "writers|%s|%s" % (adt.split("::")[-1], w[0]), writer_roots(facts, w[0]) <= ok_fns, "writer of %s.payload_max_size: %s (%s)" % (adt, w[0], w[3]), w[2])
+            good = writer_roots(facts, w[0]) <= ok_fns
+            if not good and w[3] == "construct" and adt == conn.HC and w[0].startswith(conn.P):
+                # another constructor of HttpConnection: used only while accepting (the value it stores is checked at the insertion above)
+                from .util import caller_fns
+                ccn = "server::ClientConnection::<T>::new"
+                at_accept = lambda r: r.startswith("server::HttpServer::handle_new_connection") or r in ok_fns or (r == ccn and caller_fns(facts, ccn) <= {"server::HttpServer::handle_new_connection"})
+                good = all(at_accept(r) for r in writer_roots(facts, w[0]))
+            ctx.ob("R04.4", "writers|%s|%s" % (adt.split("::")[-1], w[0]), good, "writer of %s.payload_max_size: %s (%s)" % (adt, w[0], w[3]), w[2])
 
 
 def read_guard(ctx):
